@@ -83,7 +83,7 @@ contract(_A + "calculate_face_area", variant="caller_view", trusted=True, props=
 for _dim in (2, 3):
     _gx, _gy = ("x[face_nodes[f, 0:face_geometry[f]]]", "y[face_nodes[f, 0:face_geometry[f]]]")
     _gz = "z[face_nodes[f, 0:face_geometry[f]]]" if _dim > 2 else "(" + _gx + " * 0.0)"
-    contract(_A + "get_all_face_area_from_coords", props=["C05"], variant=f"dim={_dim}",
+    contract(_A + "get_all_face_area_from_coords", props=["C05", "C06"], variant=f"dim={_dim}",
              sizes=["n_node", "n_face", "W"],
              params={"x": "arr(real, n_node)", "y": "arr(real, n_node)", "z": "arr(real, n_node)", "face_nodes": "arr(int, n_face, W)",
                      "face_geometry": "arr(int, n_face)", "dim": repr(_dim), "quadrature_rule": "opaque", "order": "opaque",
